@@ -58,9 +58,24 @@ def cmd_run(d, checks):
     REPO = wt
     cenv = dict(os.environ, VERIF_REPO=wt, VERIF_OUT_DIR=wt + ".out")
     demo_files = []
+    ported_path = [None]
     result = dict(property=prop, dir=d, checks={})
     try:
-        rc, out = sh(["git", "apply", os.path.join(os.path.abspath(d), "patch.diff")], cwd=REPO)
+        pf = os.path.join(os.path.abspath(d), "patch.diff")
+        rc, out = sh(["git", "apply", pf], cwd=REPO)
+        if rc != 0:
+            # hook lines added to /repo since the change was written can shift its context:
+            # retry with less context, then with patch(1)'s fuzz
+            rc, out2 = sh(["git", "apply", "-C1", pf], cwd=REPO)
+            if rc != 0:
+                rc, out2 = sh(["patch", "-p1", "-F3", "--no-backup-if-mismatch", "-i", pf], cwd=REPO)
+            if rc == 0:
+                result["applied_with_reduced_context"] = True
+                # from here on the ported form is what gets reversed / re-applied
+                rc2, ported = sh(["git", "diff"], cwd=REPO)
+                pf = os.path.join(REPO, ".ported.diff")
+                open(pf, "w").write(ported)
+                ported_path[0] = pf
         if rc != 0:
             print("patch does not apply:\n" + out)
             result["applies"] = False
@@ -90,9 +105,10 @@ def cmd_run(d, checks):
                 demo_files.append(rel)
             rc, out = sh(cmd, cwd=REPO, timeout=1200)
             result["demo_fails_with_change"] = rc != 0
-            sh(["git", "apply", "-R", os.path.join(os.path.abspath(d), "patch.diff")], cwd=REPO)
+            thepatch = ported_path[0] or os.path.join(os.path.abspath(d), "patch.diff")
+            sh(["git", "apply", "-R", thepatch], cwd=REPO)
             rc2, out2 = sh(cmd, cwd=REPO, timeout=1200)
-            sh(["git", "apply", os.path.join(os.path.abspath(d), "patch.diff")], cwd=REPO)
+            sh(["git", "apply", thepatch], cwd=REPO)
             result["demo_passes_without_change"] = rc2 == 0
             if rc2 != 0:
                 print("demo on the unchanged tree:\n" + out2[-800:])
